@@ -7,6 +7,18 @@ __all__ = ("Props", "PropsType",)
 PropsType = TypeVar("PropsType", bound="Props")
 
 
+def _differs(val: Any, other_val: Any) -> bool:
+    from .types import Schema
+
+    if isinstance(val, Schema) != isinstance(other_val, Schema):
+        # `schema != non_schema` would validate the non-schema (`...`, Nil) against the schema
+        return True
+    if isinstance(val, (list, tuple)) and isinstance(other_val, (list, tuple)):
+        return (type(val) is not type(other_val)) or (len(val) != len(other_val)) or \
+            any(_differs(x, y) for x, y in zip(val, other_val))
+    return bool(val != other_val)
+
+
 class Props:
     def __init__(self, registry: Nilable[Mapping[str, Any]] = Nil) -> None:
         self._registry = registry if (registry is not Nil) else {}
@@ -34,12 +46,12 @@ class Props:
 
         for key, val in self._registry.items():
             other_val = other.get(key)
-            if val != other_val:
+            if _differs(val, other_val):
                 return False
 
         for key, other_val in other._registry.items():
             val = self.get(key)
-            if other_val != val:
+            if _differs(other_val, val):
                 return False
 
         return True
